@@ -7,9 +7,11 @@
 package c04
 
 import (
+	"encoding/json"
 	"fmt"
 	"math/rand"
 	"os"
+	"os/exec"
 	"path/filepath"
 	"sort"
 	"strconv"
@@ -47,12 +49,14 @@ type fkey struct {
 
 // rec is one observed edit-log commit in canonical form.
 type rec struct {
-	kind  byte // 'F' flush, 'T' merge+references, 'S' delete rollup entries, 'D' delete references, '?' other
-	iv    int64
-	keys  []fkey   // T, D: source files; F: the flushed file
-	pairs []string // T: target store dir, family name
-	trip  [][3]int64 // S: (h, file, iv); F: (iv)
-	text  string
+	kind     byte // 'F' flush, 'T' merge+references, 'S' delete rollup entries, 'D' delete references, '?' other
+	iv       int64
+	keys     []fkey     // T, D: source files; F: the flushed file
+	pairs    []string   // T: target store dir, family name
+	trip     [][3]int64 // S: (h, file, iv); F: (iv)
+	text     string
+	newFiles []int64 // file numbers added by the record (T: the rolled-up output files)
+	srcH     int     // source family (hour) the record belongs to; -1 unknown
 }
 
 type env struct {
@@ -84,6 +88,10 @@ type env struct {
 	history []rec // committed records that survived (crash images cut the tail)
 
 	failKey string // oracle key for aggregate mismatches (the witness case uses its own key)
+	// unguarded: the interval pair is outside the guard of slot_placement (the class of the recorded
+	// finding); the target is then compared with the RECORDED behaviour of the code (expectedCurrent)
+	unguarded bool
+	big       bool // concurrent bulk case: file contents are not sent to the model
 }
 
 func (e *env) srcStorePath() string {
@@ -218,6 +226,16 @@ func (e *env) canon(storePath, family string, logs []version.Log) rec {
 	// remember where a T record was committed: target store dir / family name
 	if r.kind == 'T' {
 		r.pairs = []string{filepath.Base(storePath), family}
+	}
+	r.newFiles = newFiles
+	r.srcH = -1
+	switch {
+	case r.kind == 'S' || r.kind == 'F':
+		if h, err := strconv.Atoi(family); err == nil {
+			r.srcH = h
+		}
+	case len(r.keys) > 0:
+		r.srcH = r.keys[0].h
 	}
 	return r
 }
@@ -443,6 +461,9 @@ func (e *env) opFlush(h int, fd fileData) error {
 	for i := range fd {
 		toks[i] = fd[i].token()
 	}
+	if e.big {
+		toks = nil
+	}
 	ne := 0
 	if len(fd) > 0 {
 		ne = 1
@@ -527,6 +548,7 @@ func (e *env) opRollup(h int, cut int, viaStore bool) error {
 		e.c.Branch("rec-" + string(r.kind))
 		if r.kind == 'T' {
 			e.checkTargetLocation(r)
+			e.checkBlockRanges(r)
 		}
 	}
 	rs := strings.Join(texts, ";")
@@ -746,6 +768,10 @@ func (e *env) expected(tgt int64) map[string]map[viewKey]*viewVal {
 }
 
 func (e *env) checkAggregates(tgt int64, got map[string]map[viewKey]*viewVal) {
+	if e.unguarded {
+		e.checkRecorded(tgt, got)
+		return
+	}
 	want := e.expected(tgt)
 	bad, total := 0, 0
 	first := ""
@@ -1003,6 +1029,13 @@ func (e *env) storeCase() error {
 			ys = append(ys, t)
 		}
 	}
+	if e.unguarded {
+		// non-ladder targets: accepted by the option, outside the guard (class of the recorded finding)
+		e.src = []int64{10 * sec, 10 * sec, 30 * sec, min_, 2 * min_}[rng.Intn(5)]
+		ms = []int64{7 * min_, 45 * min_, 25 * min_, 59 * min_, 35 * min_}
+		ys = []int64{90 * min_, 150 * min_, 210 * min_}
+		c.Branch("unguarded-store-case")
+	}
 	switch rng.Intn(4) {
 	case 0:
 		e.tgts = []int64{ms[rng.Intn(len(ms))]}
@@ -1148,6 +1181,103 @@ func (e *env) witnessCase() error {
 	return e.opRead(e.tgts[0])
 }
 
+// isConc says which case indices are concurrent ForceRollup cases (big = enough series to overlap).
+func isConc(c *core.Ctx, i int) (conc, big bool) {
+	switch {
+	case c.Args["mode"] == "conc": // stress: every case is a concurrent ForceRollup case
+		return true, i%10 == 0
+	case i == 2 || i%400 == 2:
+		return true, true
+	case i%40 == 6:
+		return true, false
+	}
+	return false, false
+}
+
+// runInChild runs case i in a child process of the same binary and folds its streams into c.
+// The concurrent cases run real goroutines of lindb; a Go runtime `fatal error` (data race on a map)
+// cannot be recovered in-process and would take the whole run down.
+func runInChild(c *core.Ctx, i int) {
+	exe, err := os.Executable()
+	if err != nil {
+		c.Fail("impl-error", "os.Executable: "+err.Error())
+		return
+	}
+	tmp, err := os.MkdirTemp("", "lvh-c04-child-*")
+	if err != nil {
+		c.Fail("impl-error", err.Error())
+		return
+	}
+	defer os.RemoveAll(tmp)
+	args := []string{"run", "rollup", "-seed", strconv.FormatInt(c.Seed, 10), "-n", strconv.Itoa(c.N), "-tier", c.Tier,
+		"-out", tmp, "-case", strconv.Itoa(i), "-arg", "child=1"}
+	for k, v := range c.Args {
+		if k != "child" {
+			args = append(args, "-arg", k+"="+v)
+		}
+	}
+	cmd := exec.Command(exe, args...)
+	cmd.Env = os.Environ()
+	out, runErr := cmd.CombinedOutput()
+	if runErr != nil {
+		txt := string(out)
+		first := txt
+		if j := strings.IndexByte(first, '\n'); j >= 0 {
+			first = first[:j]
+		}
+		if strings.Contains(txt, "fatal error: concurrent map") && strings.Contains(txt, "kv/version.(*rollup).") {
+			at := ""
+			for _, l := range strings.Split(txt, "\n") {
+				if strings.Contains(l, "kv/version.(*rollup).") {
+					at = strings.TrimSpace(l)
+					break
+				}
+			}
+			c.Branch("concurrent-child-map-race")
+			c.Fail("concurrent-rollup-reference-map-race", fmt.Sprintf("one Store.ForceRollup over %s: the process dies with %q in %s (rollup jobs of several source families into one target family)", "several families", first, at))
+			return
+		}
+		c.Fail("concurrent-rollup-crash", fmt.Sprintf("child process of case %d failed: %v: %.600s", i, runErr, txt))
+		return
+	}
+	rd := func(n string) []string {
+		b, _ := os.ReadFile(filepath.Join(tmp, n))
+		return strings.Split(strings.TrimRight(string(b), "\n"), "\n")
+	}
+	ops, impl := rd("ops.txt"), rd("impl.txt")
+	for k := 0; k < len(ops) && k < len(impl); k++ {
+		if ops[k] == "" || strings.HasPrefix(ops[k], "#") {
+			continue
+		}
+		c.Op(ops[k], impl[k])
+	}
+	for _, l := range rd("oracle.txt") {
+		if !strings.HasPrefix(l, "FAIL ") {
+			continue
+		}
+		rest := l[strings.Index(l, "key=")+4:]
+		key, desc := rest, ""
+		if j := strings.Index(rest, " :: "); j >= 0 {
+			key, desc = rest[:j], rest[j+4:]
+		}
+		c.Fail(key, desc)
+	}
+	var st struct {
+		Branches map[string]int `json:"branches"`
+		Distinct int            `json:"distinct_nontrivial"`
+	}
+	if b, err := os.ReadFile(filepath.Join(tmp, "stats.json")); err == nil && json.Unmarshal(b, &st) == nil {
+		for k, n := range st.Branches {
+			for j := 0; j < n; j++ {
+				c.Branch(k)
+			}
+		}
+		if st.Distinct > 0 {
+			c.NonTrivial()
+		}
+	}
+}
+
 func (a area) Run(c *core.Ctx) error {
 	kv.VerifInstallCommitHook(nil)
 	for i := 0; i < c.N; i++ {
@@ -1156,7 +1286,12 @@ func (a area) Run(c *core.Ctx) error {
 		}
 		c.Begin(i)
 		rng := c.Rng(i)
-		if i%4 == 1 {
+		conc, big := isConc(c, i)
+		if conc && c.Args["child"] != "1" {
+			runInChild(c, i)
+			continue
+		}
+		if !conc && i%4 == 1 {
 			arithCase(c, rng)
 			continue
 		}
@@ -1171,9 +1306,16 @@ func (a area) Run(c *core.Ctx) error {
 					c.Fail("panic", fmt.Sprintf("case %d panicked: %v", i, r))
 				}
 			}()
-			if i == 0 {
+			switch {
+			case conc:
+				err = e.concCase(big)
+			case i == 0:
 				err = e.witnessCase()
-			} else {
+			case i%8 == 3:
+				e.unguarded = true
+				e.failKey = "unguarded-pair-differs-from-recorded-behaviour"
+				err = e.storeCase()
+			default:
 				err = e.storeCase()
 			}
 		}()
